@@ -91,7 +91,15 @@ func walkTree(rootGoitPath string, object *Object) ([]*Node, error) {
 			if err != nil {
 				return nil, err
 			}
-			lineSplit = strings.Split(lineString, " ")
+			if lineString == "" && buf.Len() == 0 {
+				// the empty tree has no entries
+				break
+			}
+			// "<mode> <name>": the name is everything after the first space
+			lineSplit = strings.SplitN(lineString, " ", 2)
+			if len(lineSplit) != 2 {
+				return nil, ErrInvalidTreeObject
+			}
 
 			mode := lineSplit[0]
 			if mode == "040000" {
@@ -121,7 +129,7 @@ func walkTree(rootGoitPath string, object *Object) ([]*Node, error) {
 			hashString := hex.EncodeToString(hashBytes)
 			lineSplit = []string{hashString}
 			if lineString != "" {
-				lineSplit = append(lineSplit, strings.Split(lineString, " ")...)
+				lineSplit = append(lineSplit, strings.SplitN(lineString, " ", 2)...)
 			}
 
 			hash, err := sha.ReadHash(hashString)
@@ -154,6 +162,9 @@ func walkTree(rootGoitPath string, object *Object) ([]*Node, error) {
 			// last line
 			if len(lineSplit) == 1 {
 				break
+			}
+			if len(lineSplit) != 3 {
+				return nil, ErrInvalidTreeObject
 			}
 
 			mode := lineSplit[1]
